@@ -25,7 +25,7 @@ ASSUMPTIONS = [
 ]
 GATES = {
     "median_two_blocks_both_axes": 1, "bilateral_two_blocks_both_axes": 1, "window_with_only_the_centre_valid": 1,
-    "even_bilateral_width": 1, "invalid_area_larger_than_100x100": 1, "image_smaller_than_nominal_width": 1, "median_for_intervals_runs": 2,
+    "even_bilateral_width": 1, "bilateral_object_called_directly_with_another_sigma": 3, "invalid_area_larger_than_100x100": 1, "image_smaller_than_nominal_width": 1, "median_for_intervals_runs": 2,
     "pipeline_filter_steps": 5, "pixels_judged": 100000, "image_smaller_than_median_window": 1, "regularisation_applied_on_pixels_already_flagged": 1,
 }
 INVALID = 0b1111000011
@@ -273,6 +273,24 @@ def run_case(case, ctx):
     filt.filter_disparity(ds)
     judge(ctx, case, desc, method, filt.cfg, d, m, ds["disparity_map"].data, ds["validity_mask"].data, conf,
           ds["confidence_measure"].data if conf is not None else None, names)
+    if method == "bilateral" and H * W <= 3000 and hasattr(filt, "filter_bilateral"):
+        # step-by-step use of the API: the SAME filter object is then called directly with another sigma_space that gives the
+        # same window width (the public filter_bilateral takes the sigmas as arguments)
+        ss0, sc0 = filt.cfg["sigma_space"], filt.cfg["sigma_color"]
+        width = min(H, W, int(3 * ss0 + 1))
+        ss2 = (width - 1 + 0.4) / 3.0 if int(3 * ((width - 1 + 0.4) / 3.0) + 1) == int(3 * ss0 + 1) and abs((width - 1 + 0.4) / 3.0 - ss0) > 1e-3 else ss0 * 1.0001
+        masked_in = d.astype(np.float32).copy()
+        masked_in[(m & INVALID) != 0] = np.nan
+        got2 = filt.filter_bilateral(masked_in.copy(), ss2, sc0)
+        exp2, _, _, win2, _ = ref_bilateral(masked_in, ss2, sc0)
+        ctx.gate("bilateral_object_called_directly_with_another_sigma")
+        fin2 = np.isfinite(exp2)
+        bad2 = fin2 & ~(np.abs(np.asarray(got2, np.float64) - exp2) <= 1e-5 * np.maximum(1.0, np.abs(exp2)))
+        if bad2.any():
+            i = np.argwhere(bad2)[0]
+            ctx.violation("bilateral-value", f"direct call filter_bilateral(sigma_space={ss2}) on the object configured with {ss0} (width {win2}): "
+                          f"{int(bad2.sum())} pixels differ; pixel {i.tolist()} {got2[tuple(i)]!r}, reference {exp2[tuple(i)]!r}", case,
+                          situation="direct-call-with-another-sigma", desc=desc)
     if method == "median_for_intervals" and params.get("regularization"):
         # bit 11 is a flag: pixels that already carry it (input mask, or a previous regularising step) keep it,
         # and no other bit may appear when the step is applied again
